@@ -7,28 +7,49 @@ from vlib import core
 TRUST = ("Lean 4.33 kernel; axioms at most propext/Classical.choice/Quot.sound (audited per run); "
          "hand-written models tied to the C++ by the exact correspondence harness (differential, generator-bounded); ")
 MANIFEST = dict(
-  text=("Theorems (Props/C13.lean) for all finite sets of integer points of every dimension and size: dominance = its definition; "
-        "fastNonDominatedSort model = rankSpec (one plus the highest rank among dominators) incl. duplicates, the loop reaches the empty front; "
-        "hvSpec (count of dominated unit cells = measure of the dominated region for integer points) is invariant under permutation, adding dominated or "
-        "duplicate points, monotone, sub-additive; HypervolumeCalculator2D model = hvSpec for every key-sorted order; WFG recursion = hvSpec for every tie "
-        "resolution of its sorts. Models and spec are tied to the real code by exact line-by-line correspondence on generated integer point sets "
-        "(2..6 objectives, ties, duplicates, dominated, collinear points, points equal to the reference in a coordinate, all k)."),
-  note=TRUST + "tied to the proved specs by exact correspondence only (no theorem about a model of their control flow): DCNonDominatedSort and the "
-       "size/dimension switch of nonDominatedSort, HypervolumeCalculator3D, HOY, HypervolumeContribution2D/3D/MD (against hvSpec S - hvSpec (S without p)), "
-       "HypervolumeSubsetSelection2D (against the brute-force maximum over k-subsets). HypervolumeContributionMD computes exp(sum(log(ref-p))): its "
-       "results are compared after rounding to the nearest integer (tolerance 1e-6), everything else exactly. Theorems are about integer coordinates. "
-       "In the WFG model the rank-1 filter of limitSet is written as 'has no dominator' (equal to rank 1 by rankSpec_eq_one_iff + fastSort_eq_rankSpec); "
-       "WFG is exercised on sets of at most 12 points (it is exponential in the number of tied points).",
-  technique="Lean 4 proofs by induction / well-founded recursion over point lists + exact differential correspondence with the C++ (ASan/UBSan)",
-  design="§6 C13")
+  text=("Theorems (Props/C13.lean) for all finite sets of integer points of every size (and, where stated, every dimension): dominance = its definition; "
+        "rankSpec = one plus the highest rank among the dominators (unique solution); fastNonDominatedSort model = rankSpec; the divide-and-conquer sort model "
+        "(sweepA, sweepB, median splits, ndHelperA/ndHelperB recursion, sort/unique/lower_bound front end) = rankSpec for every dimension m >= 2, hence "
+        "nonDominatedSort = rankSpec whatever its size/dimension switch selects; hvSpec (count of dominated unit cells = measure of the dominated region for integer "
+        "points) is invariant under permutation, adding dominated or duplicate points, translation, homogeneous of degree m under scaling, monotone, sub-additive; "
+        "HypervolumeCalculator2D model = hvSpec for every key-sorted order; HypervolumeCalculator3D model (sweep with the std::map staircase) = hvSpec for every "
+        "z-sorted order incl. boundary points; WFG recursion = hvSpec for every tie resolution of its sorts; the HypervolumeCalculator front end = hvSpec in 2, 3 "
+        "and >= 5 objectives; HypervolumeContribution2D model = hvSpec S - hvSpec (S without p) per point for mutually non-dominated sets (duplicates allowed, every "
+        "outcome of the sorts); HypervolumeContributionMD model (clipping, rank-1 compaction loop, box volume minus restricted hypervolume) = the same for all sets, "
+        "end to end with the modelled nonDominatedSort and front end for m != 4; k-smallest/k-largest selection returns min(k,n) sorted pairs dominating the rest, "
+        "the first being an arg-min/arg-max (every outcome of the unstable sort); HypervolumeSubsetSelection2D model: the deque upper envelope equals the running maximum, "
+        "the dynamic programme value equals the best chain area = hvSpec, back-tracking + fill-up return exactly k points of maximal hypervolume among all sub-lists of at "
+        "most k points (operator-level theorem for the intended lexicographic comparator; the comparator of the C++ is regenerated from the source on every run). "
+        "Rational coordinates: hvQ/rankQ via a common denominator are well defined, agree with hvSpec/rankSpec on integers, rankQ satisfies the rank definition for the "
+        "rational dominance, nonDominatedSort on the scaled points returns rankQ. All models are tied to the real code by exact line-by-line correspondence on generated "
+        "integer point sets (2..6 objectives, ties, duplicates, dominated, collinear points, points on the boundary of the reference box, extreme magnitudes for the "
+        "sorts, the three arms of the sort switch, all k; subset selection is compared by the selected indices), each with an independent oracle in the harness."),
+  note=TRUST + "executable models tied by exact correspondence + oracle only (no theorem model = spec): HypervolumeCalculatorMDHOY (Model/HOY.lean; therefore the front end and "
+       "HypervolumeContributionMD in exactly 4 objectives are `_partial`), HypervolumeContribution3D (Model/Contrib3D.lean: x-y front, box lists, cutBoxesOnTheLeft/Right; compared "
+       "with hvSpec S - hvSpec (S without p) on every run). These routines return only their result, so the tie of their internal states to the C++ is through the results. "
+       "HypervolumeContributionMD computes exp(sum(log(ref-p))): its results are compared after rounding to the nearest integer (tolerance 1e-6), everything else exactly. "
+       "Theorems are about integer coordinates and lifted to rationals by the common-denominator argument (Lemmas/Scale.lean, Lemmas/RatLift.lean); the C++ runs on doubles, the "
+       "correspondence uses integer-valued doubles. The 1e-10 tolerances in upperEnvelope are modelled as exact comparisons (quotients of small integers). The subset-selection "
+       "operator theorem is for the intended comparator `f2 < rhs.f2`; the C++ currently has `f2 < rhs.f1` (open finding F-C13-4 / C13-SSP-LEXLESS: std::sort overflow with > 16 "
+       "points of equal first coordinate); on inputs with pairwise distinct first coordinates both comparators agree, and for <= 16 points the model reproduces libstdc++'s "
+       "insertion sort under the real comparator. In the WFG model the rank-1 filter of limitSet is written as 'has no dominator'; WFG is exercised on at most 12 points. "
+       "The switch of nonDominatedSort is modelled as n < 3^(m+1) for log(n)/log(3) < m+1 (unobservable: both branches are proved equal to rankSpec).",
+  technique="Lean 4 proofs by induction / loop invariants / well-founded recursion over point lists + exact differential correspondence with the C++ (ASan/UBSan)",
+  design="§6 C13, §14")
 
 FINISH = dict(level="proof",
               rule="integer point sets from one SplitMix64 stream: dims 2..6, sizes 0..40 (quick) / ..300 (thorough), coordinates from small grids "
-                   "(incl. negative values) with ties, duplicates, dominated and collinear points; reference points weakly above all points; "
+                   "(incl. negative values) with ties, duplicates, dominated and collinear points; sorts also on affine images with magnitudes up to 2^51 and at the "
+                   "sizes 3^(m+1)-2..3^(m+1)+30 of the algorithm switch (one n > 5000 case in the thorough tier); subset selection up to 40 (120) points; "
+                   "reference points weakly above all points; "
                    "a case is non-trivial if it has >= 3 points and (for sort/hv) at least one tie or dominated pair; distinct = distinct op text")
 
-LAKE_TARGETS = ["SharkVerif.Props.C13", "drv_c13"]
+LAKE_TARGETS = ["SharkVerif.Props.C13", "drv_c13"]   # Props imports Lemmas/{FastSort,Hypervolume,HV3D,Contrib,DCFront,Subset2D,RatLift}
 REPO_SOURCES = ["src/Core/Random.cpp"]
+
+
+def translate(ctx):
+    return ctx.translate("ssp_point_less.py")
 
 
 def build(ctx):
@@ -89,9 +110,22 @@ def gen_case(r, kind, nmax, ctx):
         return f"dom {m} {flat([p, q])}"
     if kind == "sort":
         n = r.choice([0, 1, 2, 3]) if r.chance(1, 6) else r.range(0, nmax)
+        big = r.chance(1, 12)
+        if big:
+            # the size/dimension switch of nonDominatedSort: fast sort from n >= 3^(m+1) on (m = 3: 81, m = 4: 243)
+            m = r.choice([3, 3, 4] if nmax > 40 else [3])
+            n = 3 ** (m + 1) + r.choice([-2, -1, 0, 1, 2, 7, 30])
         w = width_for(r, m) + (r.choice([0, 3, 8]) if n > 40 else 0)
         P = gen_points(r, m, n, w, base, r.choice(["mix", "dup", "front"]))
-        ctx.hist("sort_n", min(n // 10 * 10, 300)); ctx.hist("sort_m", m)
+        mag = r.choice([0, 0, 0, 1, 2])
+        if mag:
+            # extreme magnitudes (sorting is order-only): affine images x -> a*x + b with large a, b, per coordinate
+            a = [r.choice([1, 1000003, 2 ** 40]) for _ in range(m)]; b = [r.choice([0, -2 ** 50, 2 ** 51 - 2 ** 43]) for _ in range(m)]
+            P = [[a[d] * p[d] + b[d] for d in range(m)] for p in P]
+        ctx.hist("sort_n", min(n // 10 * 10, 300)); ctx.hist("sort_m", m); ctx.hist("sort_large_magnitude", bool(mag))
+        ctx.hist("sort_nds_uses", "empty" if n == 0 else ("dc" if (m == 2 or n > 5000 or n < 3 ** (m + 1)) else "fast"))
+        ctx.hist("sort_has_duplicates", len({tuple(p) for p in P}) < n)
+        ctx.hist("sort_all_equal_in_some_coordinate", n > 1 and any(len({p[d] for p in P}) == 1 for d in range(m)))
         return f"sort {m} {n} {flat(P)}".rstrip()
     if kind == "hv":
         n = r.choice([0, 1, 2, 3]) if r.chance(1, 6) else r.range(0, min(nmax, 40 if m <= 4 else 12))
@@ -100,6 +134,10 @@ def gen_case(r, kind, nmax, ctx):
         ref = gen_ref(r, P, m, base, w)
         ctx.hist("hv_n", n // 5 * 5); ctx.hist("hv_m", m)
         ctx.hist("hv_point_on_ref_boundary", any(p[d] == ref[d] for p in P for d in range(m)))
+        ctx.hist("hv_has_duplicates", len({tuple(p) for p in P}) < n)
+        ctx.hist("hv_has_dominated", len(nondominated(P)) < n)
+        ctx.hist("hv_equal_first_coordinate", len({p[0] for p in P}) < n)
+        ctx.hist("hv_ties_in_last_coordinate", len({p[-1] for p in P}) < n)
         return f"hv {m} {n} {flat([ref])} {flat(P)}".rstrip()
     if kind == "con":
         alg = r.choice(["2d", "3d", "md", "md", "disp"])
@@ -116,15 +154,27 @@ def gen_case(r, kind, nmax, ctx):
         side = r.choice(["small", "large"])
         ctx.hist("con_alg", f"{alg}/{side}/m{m}"); ctx.hist("con_n", n); ctx.hist("con_k_is_0_or_n", k in (0, n))
         ctx.hist("con_duplicates", len({tuple(p) for p in P}) < n)
+        ctx.hist("con_point_on_ref_boundary", any(p[d] == ref[d] for p in P for d in range(m)))
+        ctx.hist("con_ties_in_a_coordinate", any(len({p[d] for p in P}) < n for d in range(m)))
         return f"con {alg} {side} {k} {m} {n} {flat([ref])} {flat(P)}".rstrip()
     if kind == "ssp":
         w = r.choice([3, 4, 6, 9])
-        n = r.range(1, 10)
-        P = gen_points(r, 2, n, w, base, r.choice(["mix", "front", "dup"]))
+        if r.chance(1, 6):
+            # more than 16 points (std::sort leaves its insertion-sort regime): pairwise distinct first
+            # coordinates, see finding C13-SSP-LEXLESS for equal ones
+            n = r.range(17, 40 if nmax <= 40 else 120)
+            xs = list(range(base, base + 2 * n)); xs = [xs.pop(r.below(len(xs))) for _ in range(n)]
+            mode = r.choice(["front", "rand"])
+            P = [[x, (base + 2 * n - (x - base) + r.range(-2, 2)) if mode == "front" else base + r.below(2 * n)] for x in xs]
+        else:
+            n = r.range(1, 16)
+            P = gen_points(r, 2, n, w, base, r.choice(["mix", "front", "dup"]))
         ref = gen_ref(r, P, 2, base, w)
         nd = len({tuple(p) for p in nondominated(P)})
         k = r.range(1, nd)
-        ctx.hist("ssp_n", n); ctx.hist("ssp_k", k); ctx.hist("ssp_has_equal_x", len({p[0] for p in P}) < n)
+        ctx.hist("ssp_k_equals_front_size", k == nd); ctx.hist("ssp_point_on_ref_boundary", any(p[d] == ref[d] for p in P for d in range(2)))
+        ctx.hist("ssp_has_dominated", nd < len({tuple(p) for p in P})); ctx.hist("ssp_has_duplicates", len({tuple(p) for p in P}) < n)
+        ctx.hist("ssp_n", n if n <= 16 else ">16"); ctx.hist("ssp_k", min(k, 10)); ctx.hist("ssp_has_equal_x", len({p[0] for p in P}) < n)
         return f"ssp {k} {n} {flat([ref])} {flat(P)}"
     raise ValueError(kind)
 
@@ -178,6 +228,14 @@ def shrink_line(line, fails, budget=150):
 def classify(ops, res):
     op = ops[0].split()
     tag = op[0] + (":" + op[1] + ":" + op[2] if op[0] == "con" else "") + (":m" + op[1] if op[0] in ("sort", "hv") else "")
+    if res.crash and op[0] == "ssp" and "HypervolumeSubsetSelection2D::Point" in res.stderr and \
+            re.search(r"std::__(unguarded_partition|introsort_loop|insertion_sort|unguarded_linear_insert)", res.stderr):
+        d = parse_line(ops[0])
+        a_type = {}
+        for p in d["P"]:
+            if p[1] - d["ref"][1] < p[0] - d["ref"][0]: a_type[p[0]] = a_type.get(p[0], 0) + 1
+        if len(d["P"]) > 16 and any(c >= 2 for c in a_type.values()):
+            return "C13-SSP-LEXLESS:sort-overflow:ssp", f"std::sort with the inconsistent Point::operator< left the vector on {ops}"
     if res.crash:
         m = re.search(r"SUMMARY: \w+: (\S+)[^\n]*? in (?:\w+ )*(?:shark::)?(\w+)|runtime error: ([^\n]*)", res.stderr)
         t = (f"{m.group(1)}@{m.group(2)}" if m.group(1) else m.group(3)) if m else ("timeout" if "TIMEOUT" in res.stderr else "crash")
@@ -252,11 +310,13 @@ def nontrivial(line):
 
 def run(ctx):
     ctx.trusted += ["correspondence harness harness/c13.cpp + generator checks/c13.py",
-                    "hand-written models Model/Pareto.lean, Model/Hypervolume.lean (the C++ is modelled, not translated)",
+                    "hand-written models Model/{Pareto,Hypervolume,HV3D,HOY,DCSort,Contrib,Contrib3D,Subset2D}.lean (the C++ is modelled, not translated; "
+                    "only the comparator of HypervolumeSubsetSelection2D::Point is machine-translated, translate/ssp_point_less.py)",
                     "ASan/UBSan runtime for the real code's memory safety (not a theorem)"]
     ctx.assumptions += ["points have integer coordinates (exactly representable doubles); all vectors of a call have equal dimension",
                         "the reference point is weakly dominated by every point (C++ documented precondition)",
                         "contribution queries: mutually non-dominated sets (duplicates allowed), 0 <= k <= n; subset selection: 1 <= k <= number of distinct non-dominated points"]
+    translate(ctx)
     ctx.prove(["SharkVerif.Props.C13"])
     if not ctx.quick:
         ctx.leanchecker(["SharkVerif.Props.C13"])
@@ -272,6 +332,10 @@ def run(ctx):
         for i in range(cnt):
             nmax = 40 if ctx.quick else (300 if (kind == "sort" and i % 6 == 0) else 60)
             lines.append(gen_case(r, kind, nmax, ctx))
+    if not ctx.quick:
+        # third arm of the switch: n > 5000 goes back to the divide-and-conquer sort
+        P = gen_points(r, 3, 5003, 9, 0, "mix")
+        lines.append(f"sort 3 5003 {flat(P)}"); ctx.hist("sort_nds_uses", "dc(n>5000)")
     for l in lines: ctx.hist("op_mix", l.split()[0])
     ctx.cov["evaluations"] = len(lines)
     ctx.cov["distinct_nontrivial"] = len({l for l in lines if nontrivial(l)})
